@@ -250,7 +250,7 @@ def _tls_name_ok(host):
     """a name the TLS layer accepts for SNI / certificate checks (it refuses others by itself, before any SOCKS byte)"""
     labels = host[:-1].split('.') if host.endswith('.') else host.split('.')
     return len(host) <= 253 and len(labels) >= 2 and all(
-        1 <= len(x) <= 63 and re.match(r'^[a-z0-9]([a-z0-9-]*[a-z0-9])?$', x) for x in labels)
+        1 <= len(x) <= 63 and re.match(r'^[a-z0-9]([a-z0-9-]*[a-z0-9])?$', x) and x[2:4] != '--' for x in labels)
 
 
 class SocksRun(object):
